@@ -80,7 +80,27 @@ def check_formula(base, formula, timeout_ms):
     s = solver_for(base, timeout_ms)
     s.add(formula)
     t = time.time(); r = s.check(); dt = time.time() - t
+    check_formula.last_solver = s
     return str(r), (s.model() if r == z3.sat else None), dt
+
+def cross_check_cvc5(solver, timeout_s=120):
+    """second opinion on an unsat verdict: the same assertions as SMT-LIB2 through cvc5 (thorough tier)"""
+    import shutil
+    exe = shutil.which('cvc5')
+    if not exe: return 'unavailable'
+    txt = '(set-logic ALL)\n' + solver.to_smt2()
+    fd, path = tempfile.mkstemp(suffix='.smt2', dir=CACHE); os.close(fd)
+    open(path, 'w').write(txt)
+    try:
+        r = subprocess.run([exe, '--lang', 'smt2', f'--tlimit={timeout_s * 1000}', path], stdout=subprocess.PIPE, stderr=subprocess.PIPE, text=True, timeout=timeout_s + 30)
+        out = (r.stdout + r.stderr).strip()
+        if '(error' in out: return 'error: ' + out[:200]
+        first = out.split('\n')[0].strip() if out else 'no answer'
+        return first if first in ('sat', 'unsat', 'unknown') else ('timeout' if 'interrupted' in out or 'timeout' in out else 'no answer: ' + out[:120])
+    except subprocess.TimeoutExpired:
+        return 'timeout'
+    finally:
+        os.remove(path)
 
 def normalize_real(op_json, real):
     """bring a replay output into the shape of the interpreter's decode()"""
@@ -162,6 +182,11 @@ def run_queries(base, queries, mir, timeout_ms, fast_check, prop, cube_name, kno
         rec['queries'].append(qr)
         if r == 'unknown':
             rec['inconclusive'].append(f'{q.name}: solver timeout/unknown after {dt:.0f}s'); continue
+        if r == 'unsat' and q.expect == 'unsat' and q.kind == 'property' and os.environ.get('VERIF_CROSS_SOLVER') == '1' and dt < 20:
+            second = cross_check_cvc5(check_formula.last_solver)
+            qr['cvc5'] = second
+            if second == 'sat' or second.startswith('error'):
+                rec['inconclusive'].append(f'{q.name}: z3 says unsat, cvc5 says {second}')
         if q.expect == 'sat':
             if r != 'sat': rec['inconclusive'].append(f'vacuity witness {q.name} is {r}: the harness does not reach what it claims to cover')
             elif q.ops:
